@@ -109,7 +109,9 @@ TypeD(name, toks) == Nd("type", name, 0, E0, E0, E0, E0, toks)
 \* ============================================================================ 1. concrete syntax
 \* token: s spelling, b break permitted after it, g glue (no blank l: before, r: after, b: both), q/y string literal
 \*   b = "S" statement end (a line end, or ";")          "O" after the brace / colon that opens a statement list
-\*       "L" after the brace that opens a literal        "K" after a comma of a literal / call list
+\*       "L" after the brace that opens a literal        "K" after a comma of a literal
+\*       "A" after a comma of a call's argument list: a line may end there, but (the interpreter's line splitter looks at
+\*           the last character of the line) not with a comment
 \*       "T" optional trailing comma before the closing brace of a literal (present only when a break is taken there)
 Tok(s)       == [s |-> s, b |-> "", g |-> "", q |-> "", y |-> E0, body |-> FALSE]
 TokG(s, g)   == [Tok(s) EXCEPT !.g = g]
@@ -130,6 +132,7 @@ Join(items, sep) == LET RECURSIVE J(_)
                     IN J(1)
 Map(f(_), s) == [i \in DOMAIN s |-> f(s[i])]
 COMMA  == TokB(",", "l", "K")
+COMMAA == TokB(",", "l", "A")
 COMMA0 == TokG(",", "l")                                             \* comma where no break is taken (names, parameters)
 TRAIL  == TokB(",", "l", "T")
 TypeToks(ty) == CASE ty = "[]int"   -> <<TokG("[", "r"), TokG("]", "b"), Tok("int")>>
@@ -144,6 +147,7 @@ RECURSIVE TkE(_), TkS(_), TkSs(_)
 Names(xs) == Join([i \in DOMAIN xs |-> <<Tok(xs[i])>>], COMMA0)
 Exprs0(es) == Join([i \in DOMAIN es |-> TkE(es[i])], COMMA0)        \* on one line
 ExprsK(es) == Join([i \in DOMAIN es |-> TkE(es[i])], COMMA)         \* a break may follow each comma
+ExprsA(es) == Join([i \in DOMAIN es |-> TkE(es[i])], COMMAA)
 Braced(els) == <<TokB("{", "b", "L")>> \o (IF els = E0 THEN E0 ELSE ExprsK(els) \o <<TRAIL>>) \o <<TokG("}", "l")>>
 Block(ss, open) == <<open>> \o TkSs(ss) \o <<CLOSE>>
 Sig(ps, rs) == <<TokG("(", "b")>> \o Join([i \in DOMAIN ps |-> Names(ps[i].y) \o (IF ps[i].n = 1 THEN TypeToks("..." \o ps[i].s) ELSE TypeToks(ps[i].s))], COMMA0)
@@ -160,8 +164,8 @@ TkE(e) ==
     [] e.k = "bin"  -> TkE(e.a[1]) \o <<Tok(e.s)>> \o TkE(e.a[2])
     [] e.k = "un"   -> LET x == TkE(e.a[1]) IN <<IF e.s = "-" /\ StartsMinus(x) THEN Tok(e.s) ELSE TokG(e.s, "r")>> \o x
     [] e.k = "par"  -> <<TokG("(", "r")>> \o TkE(e.a[1]) \o <<TokG(")", "l")>>
-    [] e.k = "call" -> <<Tok(e.s), TokG("(", "b")>> \o ExprsK(e.a) \o (IF e.n = 1 THEN <<TokG("...", "l")>> ELSE E0) \o <<TokG(")", "l")>>
-    [] e.k = "mcall" -> TkE(e.a[1]) \o <<TokG(".", "b"), Tok(e.s), TokG("(", "b")>> \o ExprsK(e.b) \o <<TokG(")", "l")>>
+    [] e.k = "call" -> <<Tok(e.s), TokG("(", "b")>> \o ExprsA(e.a) \o (IF e.n = 1 THEN <<TokG("...", "l")>> ELSE E0) \o <<TokG(")", "l")>>
+    [] e.k = "mcall" -> TkE(e.a[1]) \o <<TokG(".", "b"), Tok(e.s), TokG("(", "b")>> \o ExprsA(e.b) \o <<TokG(")", "l")>>
     [] e.k = "ix"   -> TkE(e.a[1]) \o <<TokG("[", "b")>> \o TkE(e.a[2]) \o <<TokG("]", "l")>>
     [] e.k = "slc"  -> TkE(e.a[1]) \o <<TokG("[", "b")>> \o (IF e.b = E0 THEN E0 ELSE TkE(e.b[1])) \o <<TokG(":", "b")>>
                        \o (IF e.c = E0 THEN E0 ELSE TkE(e.c[1])) \o <<TokG("]", "l")>>
